@@ -72,6 +72,8 @@ f53f4fe C17 C17.regrow
 35991d0 C04 C04.offsetsrc
 ebbf229 C08 C08.errexit
 75d9778 C18 C18.nilconfig
+63819ac C09 C09.rebuild
+7dfbaf4 C09 C09.rebuild
 50c76da C14 C14.chunkeof
 LIST
 git -C /repo worktree remove --force $WT
